@@ -2,9 +2,9 @@ package vc
 
 // propertyNotes: a note starting with "partial:" forces evidence level "other".
 var propertyNotes = map[string]string{
-	"C04": "partial: the JSON string path's escaping is proved up to two recorded findings (Go-style escapes, unescaped keys); []byte values are quoted like strings; groups, logger name and the decode round trip are not decided by this check.",
+	"C04": "partial: proved up to two recorded findings (Go-style escapes, unescaped keys): the string path's escaping for message, logger name, string, []byte, error and TextMarshaler values; separators (a comma before every member except the first of an object, a colon after every key); groups as nested objects; nil as null; floats that are not finite never bare; time attributes other than the reserved one written with their exact value. Not decided: the decode round trip as a whole, the caller object, an Attr passed as a value, user marshallers.",
 	"C05": "partial: the escaping path of logfmt is proved up to one recorded finding (unescaped keys): no control byte, quotes only escaped, invalid UTF-8 escaped, key before value, the exact escape segment of every rune class (what strconv.Unquote inverts), every string-like value kind of appendValue quoted; that the concatenation of the segments parses back to the whole string and the whole line to the whole record is not decided by this check.",
-	"C06": "partial: the colour on/off discipline of the record buffer is proved up to one recorded finding (raw string values in colored mode); the layout is not decided by this check.",
+	"C06": "partial: proved up to one recorded finding (raw string values in colored mode): the colour on/off discipline of the record buffer (every colour reset before each line break and at the end, continuation lines coloured one by one), the four-space lead of every continuation line, the level tag's width for unregistered levels, the attributes sorted before any is printed. Not decided: the rest of the layout (field order, message padding width).",
 	"C07": "partial: the assembly steps (sources and their order, inheritance, comparator, stable sort call, last-of-run dedupe, groups) are proved; that the printed list is the sorted permutation with the last occurrence surviving relies on the assumed behaviour of slices.SortStableFunc and is not decided by this check.",
 	"C20": "partial: totality / in-bounds of the formatter is proved for all int64 durations; the parser's agreement with time.ParseDuration (same value, same accept/reject, for every string in which no unit token is \"d\") is proved relationally on a lockstep product generated on every run from /repo's source and the toolchain's source, run-time panics excepted (quote's are not excluded); the format/parse round trip is NOT proved: a bounded stand-in (stated bound in coverage.bounded_standins) checks it.",
 }
